@@ -151,6 +151,9 @@ pub fn main(tier: Tier, replay: Option<Value>) -> i32 {
                 (vec!["decompress".into(), "adir".into(), "adir.out".into()], "decompress a directory".into(), Some("adir.out".into())),
                 (vec!["compress".into(), "in.txt".into(), "nodir/out.zst".into()], "compress into a directory that does not exist".into(), Some("nodir/out.zst".into())),
                 (vec!["decompress".into(), "good.zst".into(), "nodir/out.txt".into()], "decompress into a directory that does not exist".into(), Some("nodir/out.txt".into())),
+                (vec!["compress".into(), "in.txt".into(), "adir".into()], "compress with a directory as output path".into(), None),
+                (vec!["decompress".into(), "good.zst".into(), "adir".into()], "decompress with a directory as output path".into(), None),
+                (vec!["decompress".into(), "in.txt".into(), "notzstd.out".into()], "decompress a file that is not compressed".into(), Some("notzstd.out".into())),
             ];
             for cut in 0..good.len() {
                 let name = format!("cut{cut}.zst");
